@@ -18,6 +18,7 @@
 
    So the call that fails is exactly the first one that needs bytes beyond the refills
    already done, and the refill unit is sd_bsz - |kept bytes| (CompLayerS.v head). *)
+From MLA Require Import Limit.
 From MLA Require Import Base Stream CompLayer CompFailSafe CompFailSafeProofs CompFailSafeStep CompLayerS.
 From Coq Require Import ZifyBool ZifyNat ZifyN.
 Open Scope N_scope.
@@ -26,6 +27,7 @@ Lemma prefix_antisym_len {A} (a b : list A) : prefix a b -> len b <= len a -> a 
 Proof. apply prefix_len_eq. Qed.
 
 Section Dec.
+  Context {LIM : Limit}.
   Variable dstate : Type.
   Variable dinit : dstate.
   Variable dstep : dstate -> bytes -> N -> dresult * N * bytes * dstate.
